@@ -645,6 +645,8 @@ struct Batch
 	std::vector<J> samples;
 	std::vector<std::string> harness_errors;
 	std::map<std::string, int64_t> per_flavour;
+	bool dump_hashes = false;
+	std::map<std::pair<std::string, int64_t>, uint64_t> run_hashes; // (flavour, run) -> trace hash
 };
 
 void spawn_worker(Batch const& b, WorkerProc& w, std::string const& flav, int64_t start)
@@ -708,6 +710,7 @@ void handle_line(Batch& b, WorkerProc& w, std::string const& line, std::string c
 		++b.evaluations;
 		++b.per_flavour[flav];
 		b.traces.insert(th);
+		if (b.dump_hashes) b.run_hashes[{flav, i}] = th;
 		b.shapes.insert(sh);
 		if (nontriv) b.nontrivial_shapes.insert(sh);
 		b.sim_ns += simns;
@@ -866,6 +869,7 @@ int cmd_check(Args const& a)
 	b.tier = tier_s == "thorough" ? 1 : 0;
 	b.seed = uint64_t(std::strtoull(a.get("seed", env_or("VERIF_SEED", "20260926")).c_str(), nullptr, 10));
 	b.jobs = int(a.geti("jobs", 16));
+	b.dump_hashes = a.has("dump-hashes");
 	Engine* e = engine_for_prop(b.prop);
 	if (!e) { std::fprintf(stderr, "no engine for property %s\n", b.prop.c_str()); return 2; }
 	std::string const level = a.get("level", "exploration");
@@ -1047,6 +1051,12 @@ int cmd_check(Args const& a)
 	std::printf("summary property=%s evaluations=%lld distinct_traces=%zu distinct_shapes=%zu nontrivial_shapes=%zu sim_time=%.1fs handlers=%llu wall=%.1fs violations=%d known=%zu exit=%d\n"
 		, b.prop.c_str(), (long long)b.evaluations, b.traces.size(), b.shapes.size(), b.nontrivial_shapes.size()
 		, double(b.sim_ns) / 1e9, (unsigned long long)b.handlers, wall, n_new, known_printed.size(), exit_code);
+	if (b.dump_hashes)
+	{
+		std::string out;
+		for (auto const& kv : b.run_hashes) out += kv.first.first + " " + std::to_string(kv.first.second) + " " + std::to_string(kv.second) + "\n";
+		write_file(a.get("dump-hashes"), out);
+	}
 	if (a.has("counters"))
 		for (auto const& kv : b.counters) std::printf("  %s=%llu\n", kv.first.c_str(), (unsigned long long)kv.second);
 	remove_scratch();
